@@ -129,7 +129,9 @@ pub fn run_cases(run: &Run, prop: &str, n: u64, chunk: u64, describe: &(dyn Fn(u
                                 if let Ok(v) = serde_json::from_str::<Value>(j) {
                                     if let Some(nt) = v["nt"].as_u64() { run.nontrivial(nt); }
                                     if !v["s"].is_null() { run.sample_cap(8, || v["s"].clone()); }
-                                    if let Some(arr) = v["v"].as_array() { for x in arr { run.violation(x[0].as_str().unwrap_or("?"), x[1].as_str().unwrap_or(""), json!({"idx": idx, "detail": x[2]})); } }
+                                    if let Some(arr) = v["v"].as_array() { for x in arr {
+                                        if x[0].as_str() == Some("C13-INCONCLUSIVE") { run.inconclusive(x[1].as_str().unwrap_or("").to_string()); continue; }
+                                        run.violation(x[0].as_str().unwrap_or("?"), x[1].as_str().unwrap_or(""), json!({"idx": idx, "detail": x[2]})); } }
                                 }
                                 begun = None;
                                 cur = idx + 1;
